@@ -105,7 +105,13 @@ def gen_unit(rng, nids, depth, maxlen):
             how = rng.random()
             if how < 0.5:
                 v = rng.randrange(1 << 20)
-                L.append('%senum { %s = %d };' % (ind, n, v))
+                if isinstance(cur[n], int) and rng.random() < 0.4:
+                    # the enumerator's own initialiser still refers to the outer declaration (C11 6.2.1p7)
+                    d = rng.randrange(1, 9)
+                    v = cur[n] * 2 + d
+                    L.append('%senum { %s = %s * 2 + %d };' % (ind, n, n, d))
+                else:
+                    L.append('%senum { %s = %d };' % (ind, n, v))
                 cur[n] = v
             elif how < 0.7:
                 # an object shadows the enum constant: sizeof gives its size
